@@ -123,6 +123,39 @@ Proof.
   destruct (Z.ltb_spec max_alloc (4 * n)); [lia|discriminate].
 Qed.
 
+(* ---------- randInt ---------- *)
+Lemma rand_int_range_safe f t :
+  min_int <= f <= max_int -> min_int <= t <= max_int ->
+  match rand_int_range f t with
+  | VPanic => False
+  | VErr => True
+  | VOk (lo, w) => 0 < w /\ Z.min f t <= lo /\ lo + w - 1 <= Z.max (Z.max f t) 10
+  end.
+Proof.
+  unfold min_int, max_int. intros Hf Ht. unfold rand_int_range.
+  assert (Hw : forall a b, -9223372036854775808 <= a -> a < b -> b <= 9223372036854775807 ->
+             (wrap64 (b - a) <=? 0) = false -> wrap64 (b - a) = b - a).
+  { intros a b Ha Hab Hb Hpos. apply Z.leb_gt in Hpos. unfold wrap64 in *.
+    destruct (Z.lt_ge_cases (b - a) 9223372036854775808) as [Hs|Hl].
+    - rewrite Z.mod_small by lia. lia.
+    - exfalso.
+      replace (b - a + 9223372036854775808) with ((b - a - 9223372036854775808) + 1 * 18446744073709551616) in Hpos by lia.
+      rewrite Z.mod_add in Hpos by lia. rewrite Z.mod_small in Hpos by lia. lia. }
+  destruct (Z.ltb_spec t f) as [Hlt|Hge].
+  - (* swapped: bounds t < f *)
+    destruct ((t =? 0) && (f =? 0))%bool eqn:E0.
+    + apply andb_prop in E0. destruct E0 as [E1 E2]. apply Z.eqb_eq in E1, E2. lia.
+    + destruct (Z.eqb_spec f t) as [E|E]; [lia|].
+      destruct (wrap64 (f - t) <=? 0) eqn:Ew; [exact I|].
+      rewrite (Hw t f) by (try lia; exact Ew). lia.
+  - destruct ((f =? 0) && (t =? 0))%bool eqn:E0.
+    + apply andb_prop in E0. destruct E0 as [E1 E2]. apply Z.eqb_eq in E1, E2. subst.
+      cbn. lia.
+    + destruct (Z.eqb_spec t f) as [E|E]; [subst; lia|].
+      destruct (wrap64 (t - f) <=? 0) eqn:Ew; [exact I|].
+      rewrite (Hw f t) by (try lia; exact Ew). lia.
+Qed.
+
 (* ---------- MultiPassReader: a Read that returns (0, nil) is followed by progress ---------- *)
 Lemma mp_read_progress len limit m s :
   0 < m ->
